@@ -119,6 +119,9 @@ def run(c):
     open(tr, "a").write(open(tr2).read())
     tv = vf.validate_trace("Trace_Unify", tr, "c12", chunk_events=700, par=10)
     c.add_trace(tv, "Trace_Unify")
+    # observation beyond the statement (counted, never a violation): after a SECOND call solved more holes, the first pair is
+    # no longer equal -- a solution carried an unsolved hole out of a binder and the hole was later solved by the bound variable
+    c.cov["two_call_chains_where_the_first_pair_stops_being_equal"] = tv.get("notes", 0)
     lines = open(tr).read().splitlines()
     c.sample(json.loads(lines[len(lines) // 2]))
     other = {}
